@@ -267,9 +267,11 @@ class TileImage(e2.Case):
     """tile_image writes, for an arbitrary populated tile, the image pixels at their display slots and undefined
     values everywhere else (both tile parities, sub-images too)."""
 
-    def __init__(self, tier, mode, fmt, sub):
-        self.tier, self.mode, self.fmt, self.sub = tier, mode, fmt, sub
-        self.name = "tile-image-%s-%s%s" % (mode, fmt, "-sub" if sub else "")
+    def __init__(self, tier, mode, fmt, sub, imgfmt=None):
+        # imgfmt: the default format carried by the INPUT image when it differs from the pyramid's (the tiles must
+        # still be stored in the pyramid's format, which is what the data-set description records)
+        self.tier, self.mode, self.fmt, self.sub, self.imgfmt = tier, mode, fmt, sub, imgfmt
+        self.name = "tile-image-%s-%s%s%s" % (mode, fmt, "-sub" if sub else "", ("-from-%s-image" % imgfmt) if imgfmt else "")
         self.max_paths = 6000
         self.budget_s = 230
         self.conform_paths = 2
@@ -287,7 +289,7 @@ class TileImage(e2.Case):
                 t = t.compute_for_subimage(*subr)
                 iw, ih = subr[2], subr[3]
             arr = w.array("img", (ih, iw) + ((ch,) if ch else ()), dt, lo=lo)
-            image = Image.from_array(arr, default_format=self.fmt if self.fmt in ("fits", "npy") else None)
+            image = Image.from_array(arr, default_format=self.imgfmt or (self.fmt if self.fmt in ("fits", "npy") else None))
             pio = PyramidIO("/s", default_format=self.fmt)
             t.tile_image(image, pio)
             if w.symbolic:
@@ -346,6 +348,9 @@ class TileImage(e2.Case):
         want = symnp.elem_ite(inimg, inside, und)
         saves, unl = o["npaths"]
         w.claim("one-tile-event", len(saves) + len(unl) == 1, probe=lambda ro, val: True)
+        w.claim("stored-in-the-pyramid-format", all(str(p).endswith("." + fmt) for p in list(saves) + list(unl)),
+                probe=lambda ro, val: all(str(p).endswith("." + fmt) for p in ro["fsfiles"]),
+                what="study tiles must be written in the PyramidIO's default format (the recorded FileType / Url), whatever format the input image carries")
         if o["stored"] is not None:
             w.claim_eq("tile-pixel", o["stored"].get(idx), want, probe=("stored", idx), ref=("ref", idx),
                        what="study tile %s/%s: stored pixel != image pixel at its display slot / undefined outside the image" % (mode, fmt))
@@ -511,6 +516,8 @@ def cases(tier):
     for (m, f) in COMBOS:
         out.append(TileImage(tier, m, f, False))
     out.append(TileImage(tier, "F32", "fits", True))
+    out.append(TileImage(tier, "F32", "fits", False, imgfmt="npy"))
+    out.append(TileImage(tier, "F32", "npy", False, imgfmt="fits"))
     out.append(TileImage(tier, "RGB", "png", True))
     out.append(FullLoop("F32", "fits", False))
     out.append(FullLoop("RGB", "png", False))
